@@ -31,8 +31,10 @@ type Config struct {
 	// Nested: the RPCs of the scenario run over an INNER forward tunnel that is opened through the (outer)
 	// tunnel of the scenario: the outer tunnel's server serves the tunnel service of an inner handler, the
 	// inner channel is started over the outer channel with NestedMD as its opening metadata
-	Nested   bool                `json:"nested,omitempty"`
-	NestedMD map[string][]string `json:"nestedMD,omitempty"`
+	Nested bool `json:"nested,omitempty"`
+	// PreTunnel: another tunnel ("nofc": its peer has flow control disabled) is opened through the same handler and ended before this one
+	PreTunnel string              `json:"preTunnel,omitempty"`
+	NestedMD  map[string][]string `json:"nestedMD,omitempty"`
 	// KeepSending: the scripted applications go on sending after a send failed (illegal
 	// applications, for the shape-enforcement scenarios).
 	KeepSending bool `json:"keepSending,omitempty"`
